@@ -155,7 +155,27 @@ def _fix_combined_protection():
     pp.CombinedMinimizationVisitor._minimize_statements_across_test_suite = _minimize_statements_across_test_suite
 
 
+def _fix_protect_dotted_sources():
+    """_directly_asserted_variables: the protected name is the variable an attribute path starts with ('var_0.balance' -> 'var_0')."""
+    import pynguin.ga.postprocess as pp
+
+    from pynguin.assertion.assertion import ExceptionAssertion, ReferenceAssertion
+
+    def _directly_asserted_variables(test_case):
+        protected = set()
+        for statement in test_case.statements():
+            for assertion in statement.assertions:
+                if isinstance(assertion, ExceptionAssertion):
+                    continue
+                if isinstance(assertion, ReferenceAssertion) and isinstance(assertion.source, str):
+                    protected.add(assertion.source.split(".", 1)[0])
+        return protected
+
+    pp._directly_asserted_variables = _directly_asserted_variables
+
+
 BREAKS = {
+    "PROPOSED_FIX_protect-dotted-sources": _fix_protect_dotted_sources,
     "PROPOSED_FIX_remove-unused-keeps-asserted": _fix_remove_unused_keeps_asserted,
     "PROPOSED_FIX_combined-protection": _fix_combined_protection,
     "wrong-direction": _break_wrong_direction,
